@@ -104,3 +104,20 @@ Definition ext_neq (a b : extents) : res bool := rmap negb (ext_eq a b).
 Definition compatible_pat (p q : pattern) : bool :=
   Nat.eqb (length p) (length q) &&
   forallb (fun pq => match pq with (Some a, Some b) => a =? b | _ => true end) (combine p q).
+
+(* the values a pattern + stored dynamic values denote *)
+Fixpoint fill (t : ity) (pat : pattern) (dv : list Z) : list Z :=
+  match pat with
+  | [] => []
+  | Some s :: pat' => wrap t s :: fill t pat' dv
+  | None :: pat' => match dv with v :: dv' => v :: fill t pat' dv' | [] => 0 :: fill t pat' [] end
+  end.
+
+
+(* the extents a pattern + all values denote: static positions win *)
+Fixpoint fill_all (t : ity) (pat : pattern) (av : list Z) : list Z :=
+  match pat, av with
+  | Some s :: pat', _ :: av' => wrap t s :: fill_all t pat' av'
+  | None :: pat', v :: av' => wrap t v :: fill_all t pat' av'
+  | _, _ => []
+  end.
